@@ -296,7 +296,7 @@ class Distribution(NominalValueMixin):
     def __rtruediv__(self, other):
         p = self.to_pbox()
         try:
-            return other * p.recip()
+            return other * p.reciprocal()
         except:
             return NotImplemented
 
